@@ -267,6 +267,7 @@ def execute_and_validate(ctx, pid, scenarios, par=8):
         ctx.classify([rec])
         return []
     maxid = max((20 + 2 * len(sc["lines"]) if any(l["cls"] == "S" for l in sc["lines"]) else len(sc["lines"])) for sc in scenarios) + 1
+    ctx._last_trace = trace
     viol, nlines = validate(ctx, trace, maxid=max(maxid, 8))
     ctx.traces_validated += stats["runs"]
     ctx.extra["trace_lines_validated"] = ctx.extra.get("trace_lines_validated", 0) + nlines
@@ -320,3 +321,70 @@ def shape_keys(trace):
         if nontrivial:
             keys.add(hash(tuple(seq)))
     return keys
+
+
+# ---------------------------------------------------------------------------------------------- conformance
+def conformance(ctx, trace, groups):
+    """groups: list of (consts dict, [run numbers]).  Validates that the recorded runs are behaviours of Pipeline.tla
+    (specs/PipelineTrace.tla).  Returns (accepted, rejected list).  A rejection is a MODEL-DRIFT warning, never a verdict."""
+    runs = {}
+    for line in open(trace):
+        e = json.loads(line)
+        runs.setdefault(e["run"], []).append(line)
+    accepted, rejected = 0, []
+
+    def validate(cons, rs, tag):
+        f = os.path.join(ctx.scratch, "conf_%s.ndjson" % tag)
+        n = 0
+        with open(f, "w") as out:
+            for r in rs:
+                out.writelines(runs[r])
+                n += len(runs[r])
+        maxid = max(len(json.loads(runs[r][0])["lines"]) for r in rs)
+        ov = {"MaxId": str(maxid), "NProcs": "3", "Capacity": str(cons["Capacity"]), "NWorkers": str(cons["NWorkers"]),
+              "BatchCount": str(cons["BatchCount"]), "Retry": str(cons["Retry"]), "HasDQ": "TRUE" if cons["HasDQ"] else "FALSE"}
+        res = ctx.tlc("PipelineTrace", "PipelineTrace.cfg", workers=1, files={f: "trace.ndjson"}, timeout=300, deadlock=False, check=False,
+                      overrides=ov, jvm=["-Dtlc2.tool.queue.IStateQueue=StateDeque"], name="PipelineTrace/%s" % tag)
+        rep = [p for p in res.printed if isinstance(p, dict) and "reached" in p]
+        if not rep:
+            return None, n
+        return rep[-1]["reached"], n
+
+    for gi, (cons, rs) in enumerate(groups):
+        rs = [r for r in rs if r in runs and json.loads(runs[r][0]).get("lines")]
+        # all runs of a group must have the same number of lines (MaxId is a constant of the model)
+        by_len = {}
+        for r in rs:
+            by_len.setdefault(len(json.loads(runs[r][0])["lines"]), []).append(r)
+        for ln, rr in by_len.items():
+            reached, n = validate(cons, rr, "g%d_%d" % (gi, ln))
+            if reached == n:
+                accepted += len(rr)
+                continue
+            for r in rr:            # find the run(s) the model cannot follow
+                reached, n = validate(cons, [r], "g%d_%d_r%d" % (gi, ln, r))
+                if reached == n:
+                    accepted += 1
+                else:
+                    at = runs[r][reached].strip()[:200] if reached is not None and reached < len(runs[r]) else "?"
+                    rejected.append({"run": r, "reached": reached, "lines": n, "next_line": at})
+    return accepted, rejected
+
+
+def conformance_selftest(ctx, trace, cons, run):
+    """the binding is not vacuous: one recorded commit is altered and the trace must be rejected"""
+    lines = [l for l in open(trace) if json.loads(l)["run"] == run]
+    idx = [i for i, l in enumerate(lines) if json.loads(l)["ev"] == "BCommit"]
+    if not idx:
+        return None
+    e = json.loads(lines[idx[0]])
+    e["id"] = e["id"] % len(json.loads(lines[0])["lines"]) + 1
+    lines[idx[0]] = json.dumps(e) + "\n"
+    f = os.path.join(ctx.scratch, "conf_selftest.ndjson")
+    open(f, "w").writelines(lines)
+    ov = {"MaxId": str(len(json.loads(lines[0])["lines"])), "NProcs": "3", "Capacity": str(cons["Capacity"]), "NWorkers": str(cons["NWorkers"]),
+          "BatchCount": str(cons["BatchCount"]), "Retry": str(cons["Retry"]), "HasDQ": "TRUE" if cons["HasDQ"] else "FALSE"}
+    res = ctx.tlc("PipelineTrace", "PipelineTrace.cfg", workers=1, files={f: "trace.ndjson"}, timeout=120, deadlock=False, check=False,
+                  overrides=ov, jvm=["-Dtlc2.tool.queue.IStateQueue=StateDeque"], name="PipelineTrace/selftest-corrupted")
+    rep = [p for p in res.printed if isinstance(p, dict) and "reached" in p]
+    return bool(rep) and rep[-1]["reached"] < len(lines)
